@@ -80,6 +80,31 @@ func SeedFromEnv() uint64 {
 	return 1
 }
 
+// heapLimit is the amount of memory one worker may obtain from the OS before its current case is declared
+// process-fatal: 10 GB, or less when all workers together would then exceed 70% of the machine's memory
+// (a change that turns garbage into indexes makes every worker grow at once).
+func heapLimit(nworkers int) uint64 {
+	limit := uint64(10 << 30)
+	if b, err := os.ReadFile("/proc/meminfo"); err == nil {
+		for _, l := range strings.Split(string(b), "\n") {
+			if strings.HasPrefix(l, "MemTotal:") {
+				f := strings.Fields(l)
+				if len(f) >= 2 {
+					if kb, err := strconv.ParseUint(f[1], 10, 64); err == nil && nworkers > 0 {
+						if per := kb * 1024 / 10 * 7 / uint64(nworkers); per < limit {
+							limit = per
+						}
+					}
+				}
+			}
+		}
+	}
+	if limit < 1<<30 {
+		limit = 1 << 30
+	}
+	return limit
+}
+
 // runCase executes one case under recover().
 // OnCaseStart, when set, is called before every case with a value derived from the case's identity
 // (monitors use it to vary what does not belong to the case's own PRNG stream, e.g. query order).
@@ -157,12 +182,19 @@ func WorkerMain(propID, tier string, seed uint64, k, nworkers int, outPath, curP
 	// witness, not take the machine down.
 	var curIndex int64 = -1
 	var mu sync.Mutex
+	var peakSys uint64
+	limit := heapLimit(nworkers)
 	go func() {
 		var ms runtime.MemStats
 		for {
 			time.Sleep(100 * time.Millisecond)
 			runtime.ReadMemStats(&ms)
-			if ms.Sys > 10<<30 {
+			mu.Lock()
+			if ms.Sys > peakSys {
+				peakSys = ms.Sys
+			}
+			mu.Unlock()
+			if ms.Sys > limit {
 				mu.Lock()
 				fmt.Fprintf(os.Stderr, "heap watch: %d bytes obtained from the OS while running case %d\n", ms.Sys, curIndex)
 				os.Exit(3)
@@ -205,6 +237,9 @@ func WorkerMain(propID, tier string, seed uint64, k, nworkers int, outPath, curP
 		}
 	}
 	os.Remove(curPath)
+	mu.Lock()
+	res.Maxes["harness.worker_peak_memory_MB"] = float64(peakSys >> 20)
+	mu.Unlock()
 	if err := writeJSON(outPath, &res); err != nil {
 		fmt.Fprintln(os.Stderr, "cannot write result:", err)
 		return 2
